@@ -75,16 +75,25 @@ def run(ctx, rep):
             grad = np.array([gen.pick(rng, gen.grid8(24)) if rng.random() < 0.7 else gen.real(rng, 1.0)
                              for _ in range(p)])
             obj = compiled_pen(pen, wts if pen.kind in Pen.WEIGHTED else None)
-            ws = np.arange(p)
-            sd = call(obj.subdiff_distance, w, grad, ws)
+            # the working set is an arbitrary non-empty subset in arbitrary order (argpartition does not sort);
+            # `grad` handed to the kernel is indexed by position in ws, `w` by feature
+            ws = np.array(rng.sample(range(p), rng.randrange(1, p + 1)), dtype=np.int64) if rng.random() < 0.7 \
+                else np.arange(p)
+            sd_ws = call(obj.subdiff_distance, w, grad[ws].copy(), ws)
+            if isinstance(sd_ws, str):
+                sd = sd_ws
+            else:
+                sd = np.full(p, np.nan)
+                sd[ws] = sd_ws
             gs = call(obj.generalized_support, w)
             ip = call(obj.is_penalized, p)
             val = call(obj.value, w)
             inp = dict(penalty=pen.describe(), weights=wts, w=w.tolist(), grad=grad.tolist())
             for j in range(p):
-                lines.append(f"sd1 {pen.tokens()} {fb(wts[j])} {fb(w[j])} {fb(grad[j])}")
-                impls.append(sd if isinstance(sd, str) else float(sd[j]))
-                meta.append(("sd", pen, wts[j], w[j], grad[j], f"{cls}.subdiff_distance", inp))
+                if isinstance(sd, str) or j in ws:
+                    lines.append(f"sd1 {pen.tokens()} {fb(wts[j])} {fb(w[j])} {fb(grad[j])}")
+                    impls.append(sd if isinstance(sd, str) else float(sd[j]))
+                    meta.append(("sd", pen, wts[j], w[j], grad[j], f"{cls}.subdiff_distance", dict(inp, ws=ws.tolist())))
                 lines.append(f"gsupp1 {pen.tokens()} {fb(w[j])}")
                 impls.append(gs if isinstance(gs, str) else bool(gs[j]))
                 meta.append(("gs", pen, wts[j], w[j], grad[j], f"{cls}.generalized_support", inp))
